@@ -225,14 +225,14 @@ fn configs(tier: &str) -> Vec<(Config, Option<usize>)> {
     let n = OPS.len();
     let thorough = tier == "thorough";
     // every pair of single-operation threads (up to symmetry), iterated preemption bounds
-    for a in 0..n { for b in a..n { { let writes = |o: usize| matches!(o, 6 | 12); v.push((vec![vec![a], vec![b]], Some(if thorough { 5 } else if writes(a) || writes(b) { 3 } else { 2 }))) } } }
+    for a in 0..n { for b in a..n { { let writes = |o: usize| matches!(o, 6 | 12); let heavy = |o: usize| matches!(o, 13 | 14 | 15); v.push((vec![vec![a], vec![b]], Some(if thorough { if heavy(a) || heavy(b) { 3 } else { 5 } } else if writes(a) || writes(b) { 3 } else { 2 }))) } } }
     // (2-op, 1-op) pairs: first-use race followed by a formatting call, against every single operation
     let two: Vec<Vec<usize>> = vec![vec![6, 1], vec![6, 0], vec![7, 0], vec![10, 2], vec![8, 4], vec![0, 6], vec![1, 1], vec![9, 1], vec![11, 0], vec![6, 4], vec![5, 6], vec![2, 3], vec![12, 1], vec![12, 6], vec![6, 12], vec![13, 6], vec![14, 0], vec![15, 0], vec![15, 6]];
     let partners: Vec<usize> = if thorough { (0..n).collect() } else { vec![0, 2, 4, 6, 7, 10, 12, 13, 15] };
     for p in &two { for b in &partners { v.push((vec![p.clone(), vec![*b]], Some(if thorough { 3 } else { 2 }))) } }
     // three threads: operation triples that touch different registries
     let triples: Vec<[usize; 3]> = vec![[15, 0, 6], [15, 15, 1], [0, 6, 2], [1, 7, 10], [6, 8, 9], [0, 1, 6], [4, 6, 7], [2, 3, 6], [6, 6, 0], [7, 8, 1], [10, 6, 5], [11, 0, 6], [12, 6, 1], [12, 12, 6]];
-    for t in triples.iter().rev().take(if thorough { 14 } else { 7 }) { v.push((t.iter().map(|o| vec![*o]).collect(), Some(if thorough { 3 } else { 2 }))) }
+    for t in triples.iter().rev().take(if thorough { 14 } else { 7 }) { v.push((t.iter().map(|o| vec![*o]).collect(), Some(if thorough && !t.contains(&15) { 3 } else { 2 }))) }
     if thorough {
         for q in [[0usize, 6, 2, 1], [6, 7, 8, 0], [0, 0, 6, 6], [1, 10, 6, 4], [6, 9, 2, 11], [3, 4, 5, 6]] { v.push((q.iter().map(|o| vec![*o]).collect(), Some(2))) }
         for t in [[vec![6usize, 0], vec![1], vec![2]], [vec![0, 6], vec![6, 1], vec![7]]] { v.push((t.to_vec(), Some(2))) }
